@@ -40,3 +40,11 @@ VARIANTS += [
                                                      "    if tagged or check:\n        loader = TaggedTestLoader(check)\n    else:\n        loader = unittest.defaultTestLoader"), kind='refactor'),
     M('C19', 'refactor-pytest-condition-demorgan', E(PYT, "            if showtagged or not tagged:\n                items.remove(f)", "            if not (tagged and not showtagged):\n                items.remove(f)"), kind='refactor'),
 ]
+
+VARIANTS += [
+    M('C19', 'class-tag-copied-onto-inherited-functions', E(RT, "    test._tagged = True\n    return test", "    test._tagged = True\n    if isinstance(test, type):\n        for name in dir(test):\n            if name.startswith('test'):\n                getattr(test, name)._tagged = True\n    return test"),
+      rule='C19-LOADER', key='tag-marks-its-argument-only'),
+    M('C19', 'listing-drops-only-reference-test-cases', E(TC2, "            if self.check and not isinstance(test, unittest.suite.TestSuite):", "            if self.check and isinstance(test, ReferenceTestCase):"),
+      rule='C19-CHECKMODE', key='plain unittest.TestCase'),
+    M('C19', 'refactor-listing-test-on-testcase-class', E(TC2, "            if self.check and not isinstance(test, unittest.suite.TestSuite):", "            if self.check and isinstance(test, unittest.TestCase):"), kind='refactor'),
+]
